@@ -34,6 +34,7 @@ static volatile int live_workers;
 static volatile int stop_resumer;
 static int poolkind, schedkind, topo, recycle;
 static int shared_pool = -1; /* topo 2: index of the pool every secondary stream serves in front of its own */
+static int dpool = -1;       /* a pool that no scheduler serves: units in it run only through a directed yield */
 static int npools;
 
 static void unit_fn(void *arg);
@@ -292,7 +293,15 @@ static void unit_fn(void *arg)
                 int rank = -1;
                 ABT_OK(ABT_xstream_self_rank(&rank));
                 int same_es = (rank == u->pool);
-                if (op == OP_YIELD_TO && !same_es)
+                if (op == OP_YIELD_TO && dpool >= 0 && sc_rnd(3) == 0) {
+                    /* the target waits in a pool nobody serves (another pool than the caller's): it runs only because
+                     * the caller names it, and has no scheduling point of its own */
+                    U[c].pool = U[c].home = dpool;
+                    for (int k = 0; k < U[c].nsteps; k++)
+                        U[c].steps[k] = OP_STATE;
+                    U[c].moves = 0;
+                    same_es = 1; /* nobody else can pop it */
+                } else if (op == OP_YIELD_TO && !same_es)
                     op = OP_CREATE_TO;
                 if (op == OP_YIELD_TO)
                     U[c].named = 1;
@@ -306,7 +315,7 @@ static void unit_fn(void *arg)
                 }
                 VSA_CHECK(u->in_run == 0, "unit U%d resumed on two streams at once", u->id);
                 u->in_run = 1;
-                if (same_es)
+                if (same_es && rank == u->pool)
                     VSA_CHECK(U[c].started == 1, "directed switch from U%d: the target U%d had not run when the caller resumed", u->id, c);
                 if (U[c].named)
                     children[nch++] = c;
@@ -675,6 +684,9 @@ int main(int argc, char **argv)
         }
         vsa_name_xstream(sc_xs[i], "X%d", i);
     }
+    dpool = npools;
+    ABT_OK(ABT_pool_create_basic(pk, ABT_POOL_ACCESS_MPMC, ABT_FALSE, &sc_pool[dpool]));
+    vsa_name_pool(sc_pool[dpool], "P%d", dpool);
     pthread_t rt;
     pthread_create(&rt, NULL, resumer, NULL);
     /* top-level units */
@@ -773,6 +785,12 @@ int main(int argc, char **argv)
     }
     for (int i = 1; i < nes; i++)
         ABT_OK(ABT_xstream_free(&sc_xs[i]));
+    {
+        size_t tot;
+        ABT_OK(ABT_pool_get_total_size(sc_pool[dpool], &tot));
+        VSA_CHECK(tot == 0, "the unserved pool P%d still accounts for %zu units", dpool, tot);
+        ABT_OK(ABT_pool_free(&sc_pool[dpool]));
+    }
     if (recycle)
         for (int i = 1; i < npools; i++)
             ABT_OK(ABT_pool_free(&sc_pool[i]));
